@@ -4,6 +4,7 @@ import (
 	"fmt"
 	"go/token"
 	"go/types"
+	"math/big"
 
 	"golang.org/x/tools/go/ssa"
 
@@ -281,6 +282,10 @@ func (ex *Exec) unop(fr *Frame, x *ssa.UnOp, st *State, cur *smt.Term) *smt.Term
 			fr.vals[x] = Val{T: x.Type(), Tm: ex.wrap(c.Neg(v.Tm), x.Type(), false)}
 		}
 	case token.XOR:
+		if v.Tm.Sort.IsBV() {
+			fr.vals[x] = Val{T: x.Type(), Tm: c.App("bvnot", v.Tm.Sort, v.Tm)}
+			return cur
+		}
 		_, hi, uns, _ := intRange(x.Type())
 		if uns {
 			fr.vals[x] = Val{T: x.Type(), Tm: c.Sub(c.Sub(c.BigLit(hi), c.IntLit(1)), v.Tm)}
@@ -302,6 +307,57 @@ func (ex *Exec) binop(fr *Frame, x *ssa.BinOp, st *State, cur *smt.Term) *smt.Te
 	t := x.Type()
 	set := func(tm *smt.Term) { fr.vals[x] = Val{T: t, Tm: tm} }
 	ot := a.T // operand type
+	if a.Tm != nil && b.Tm != nil && a.Tm.Sort.IsBV() && a.Tm.Sort == b.Tm.Sort {
+		bs := a.Tm.Sort
+		switch x.Op {
+		case token.AND:
+			set(c.App("bvand", bs, a.Tm, b.Tm))
+			return cur
+		case token.OR:
+			set(c.App("bvor", bs, a.Tm, b.Tm))
+			return cur
+		case token.XOR:
+			set(c.App("bvxor", bs, a.Tm, b.Tm))
+			return cur
+		case token.AND_NOT:
+			set(c.App("bvand", bs, a.Tm, c.App("bvnot", bs, b.Tm)))
+			return cur
+		case token.ADD:
+			set(c.App("bvadd", bs, a.Tm, b.Tm))
+			return cur
+		case token.SUB:
+			set(c.App("bvsub", bs, a.Tm, b.Tm))
+			return cur
+		case token.MUL:
+			set(c.App("bvmul", bs, a.Tm, b.Tm))
+			return cur
+		case token.LSS:
+			set(c.App("bvult", smt.Bool, a.Tm, b.Tm))
+			return cur
+		case token.LEQ:
+			set(c.App("bvule", smt.Bool, a.Tm, b.Tm))
+			return cur
+		case token.GTR:
+			set(c.App("bvugt", smt.Bool, a.Tm, b.Tm))
+			return cur
+		case token.GEQ:
+			set(c.App("bvuge", smt.Bool, a.Tm, b.Tm))
+			return cur
+		}
+	}
+	if a.Tm != nil && a.Tm.Sort.IsBV() && (x.Op == token.SHL || x.Op == token.SHR) {
+		bs := a.Tm.Sort
+		sh := b.Tm
+		if !sh.Sort.IsBV() {
+			sh = c.App(fmt.Sprintf("(_ int2bv %d)", bs.BVWidth()), bs, sh)
+		}
+		if x.Op == token.SHL {
+			set(c.App("bvshl", bs, a.Tm, sh))
+		} else {
+			set(c.App("bvlshr", bs, a.Tm, sh))
+		}
+		return cur
+	}
 	switch x.Op {
 	case token.EQL, token.NEQ:
 		eq := ex.equal(a, b, st)
@@ -535,6 +591,29 @@ func (ex *Exec) sliceInstr(fr *Frame, x *ssa.Slice, st *State, cur *smt.Term) *s
 func (ex *Exec) convert(v Val, to types.Type, st *State) Val {
 	c := ex.W.C
 	from := v.T
+	// bit-vector modelled types: bridge only at conversions
+	if v.Tm != nil && v.Tm.Sort.IsBV() {
+		fw := v.Tm.Sort.BVWidth()
+		if tw, ok := ex.W.BVWidth(to); ok {
+			switch {
+			case tw == fw:
+				return Val{T: to, Tm: v.Tm}
+			case tw < fw:
+				return Val{T: to, Tm: c.App(fmt.Sprintf("(_ extract %d 0)", tw-1), smt.BVSort(tw), v.Tm)}
+			default:
+				return Val{T: to, Tm: c.App(fmt.Sprintf("(_ zero_extend %d)", tw-fw), smt.BVSort(tw), v.Tm)}
+			}
+		}
+		n := c.App("bv2nat", smt.Int, v.Tm)
+		ex.assume(c.And(c.Le(c.IntLit(0), n), c.Lt(n, c.BigLit(pow2(uint(fw))))))
+		return ex.convert(Val{T: types.Typ[types.Uint64], Tm: n}, to, st)
+	}
+	if tw, ok := ex.W.BVWidth(to); ok && v.Tm != nil && v.Tm.Sort == smt.Int {
+		if n, isLit := v.Tm.IntVal(); isLit {
+			return Val{T: to, Tm: c.BVLit(new(big.Int).Mod(n, pow2(uint(tw))).Uint64(), tw)}
+		}
+		return Val{T: to, Tm: c.App(fmt.Sprintf("(_ int2bv %d)", tw), smt.BVSort(tw), v.Tm)}
+	}
 	switch {
 	case isInteger(from) && isInteger(to):
 		flo, fhi, _, _ := intRange(from)
